@@ -47,7 +47,7 @@ _SCRIPT = textwrap.dedent('''
     from ixai.imputer import MarginalImputer, TreeImputer
     if cfg.get('seed_after_import'):
         random.seed(cfg['seed']); np.random.seed(cfg['seed'])
-    def scenario(steps=None):
+    def scenario(steps=None, keep=False):
         names = ['a', 'b', 'c']
         def model(x):
             if not isinstance(x, dict):
@@ -75,9 +75,22 @@ _SCRIPT = textwrap.dedent('''
               'pfi': lambda: IncrementalPFI(model, loss, names, storage=st, imputer=imp, smoothing_alpha=0.3)}[cfg['explainer']]()
         rng = random.Random(12345)
         out = None
+        kept = []
+        if cfg.get('identity'):
+            # the storage is trained beforehand; afterwards every instance is a fresh dict that nobody keeps (unless keep=True):
+            # CPython then reuses the addresses - results must not depend on object identities
+            for t in range(40):
+                st.update({k: rng.random() for k in names})
+        x = None
         for t in range(steps or cfg['steps']):
+            x = None            # the previous instance is released before the next one is built (its address may be reused)
             x = {k: rng.random() for k in names}
-            out = ex.explain_one(x, rng.random())
+            if cfg.get('identity'):
+                if keep:
+                    kept.append(x)
+                out = ex.explain_one(x, rng.random(), update_storage=False)
+            else:
+                out = ex.explain_one(x, rng.random())
         content = None
         if cfg['storage'] != 'tree':
             content = [sorted(r.items()) for r in st.get_data()[0]]
@@ -87,6 +100,9 @@ _SCRIPT = textwrap.dedent('''
 
     first = scenario()
     outs = [first]
+    if cfg.get('identity'):
+        random.seed(cfg['seed']); np.random.seed(cfg['seed'])
+        outs.append(scenario(keep=True))
     if cfg.get('in_process'):
         # the same scenario again in the SAME interpreter after re-seeding the global generators, once directly and once after
         # other library objects were used (a shorter unrelated run): the results may depend on nothing but the global seeds
@@ -124,8 +140,9 @@ def _configs(tier):
     cfgs.append({'explainer': 'pfi', 'storage': 'tree', 'use_storage': True, 'seed': 4, 'steps': 30, 'in_process': True})
     cfgs.append({'explainer': 'sage', 'storage': 'geometric', 'seed': 4, 'steps': 25, 'in_process': True})
     cfgs.append({'explainer': 'sage', 'storage': 'geometric', 'seed': 4, 'steps': 25, 'in_process': True, 'river_labels': True})
+    cfgs.append({'explainer': 'pfi', 'storage': 'tree', 'use_storage': True, 'seed': 4, 'steps': 25, 'identity': True})
     if tier == 'quick':
-        cfgs = [cfgs[0], cfgs[2], cfgs[5], cfgs[7], cfgs[8], cfgs[10], cfgs[11], cfgs[13]]
+        cfgs = [cfgs[0], cfgs[2], cfgs[5], cfgs[7], cfgs[8], cfgs[10], cfgs[11], cfgs[13], cfgs[14]]
     return cfgs
 
 
